@@ -72,7 +72,8 @@ def o_roundtrip(inp):
     t, where = inp["text"], inp["where"]
     enc, dec = OPTION_SETS[inp["opts"]]
     if where == "field":
-        lib = Library([Entry("article", "k", [libgen.Field("title", t, 1)], 0, "raw")])
+        # the conversion is a function of the value, whatever the field is called
+        lib = Library([Entry("article", "k", [libgen.Field(inp.get("key", "title"), t, 1)], 0, "raw")])
     elif where == "string":
         lib = Library([String("s", t, 0, "raw")])
     else:
@@ -259,6 +260,12 @@ def w_atoms(acc):
         acc.run("roundtrip", o_roundtrip, {"text": t, "where": where, "opts": opts}, True)
     for atom, p, q, opts in itertools.product(URL_THEN_NBSP, pre, post, OPTION_SETS):
         acc.run("roundtrip", o_roundtrip, {"text": p + atom + q, "where": "field", "opts": opts}, True)
+    # identifier-like values under the field keys that usually carry them
+    ids = ["10.1002/(SICI)1097-4636(199823)40:1%3C139::AID-JBM16%3E3.0.CO;2-K", "10.1000/a_b&c~d", "10.1234/x{y}z", "10.5555/12345678", "978-3-16-148410-0", "arXiv:hep-th/9901001", "10.1/50%", "jan", "12--15"]
+    for t, key, opts in itertools.product(ids, ["doi", "DOI", "url", "isbn", "eprint", "note", "month", "pages", "crossref"], OPTION_SETS):
+        if "--" in t:
+            continue  # ligature sequence: outside the quantifier
+        acc.run("roundtrip", o_roundtrip, {"text": t, "where": "field", "opts": opts, "key": key}, True)
     for atom, p, opts in itertools.product(RISKY_URLS + ["$x$ 5% $y$", "$a$ and $b$ \\& c", "$a$ $b$ $c$"], pre, OPTION_SETS):
         acc.run("roundtrip", o_roundtrip, {"text": p + atom + " end", "where": "field", "opts": opts}, True)
 
@@ -302,6 +309,10 @@ def w_random(acc, n, seed):
     longer = st.lists(st.one_of(st.sampled_from(CHARS), st.sampled_from(SAFE_URLS + MATH + RISKY_URLS + URL_THEN_NBSP)), max_size=40).map(join_tokens)
     rt2 = st.fixed_dictionaries({"text": longer, "where": st.just("field"), "opts": st.sampled_from(sorted(OPTION_SETS))})
     harness.run_hyp(acc, "roundtrip", o_roundtrip, rt2, n // 2, seed + 1)
+    ids = ["10.1002/(SICI)1097-4636(199823)40:1%3C139::AID-JBM16%3E3.0.CO;2-K", "10.1000/a_b&c~d", "10.1234/x{y}z", "10.5555/12345678", "978-3-16-148410-0", "arXiv:hep-th/9901001", "doi:10.1/%", "10.1/50%", "1234.5678v2 [cs.LG]"]
+    rt3 = st.fixed_dictionaries({"text": st.one_of(st.sampled_from(ids), text), "where": st.just("field"), "opts": st.sampled_from(sorted(OPTION_SETS)),
+                                 "key": st.sampled_from(["doi", "DOI", "url", "isbn", "eprint", "note", "file", "month", "crossref", "pages"])})
+    harness.run_hyp(acc, "roundtrip", o_roundtrip, rt3, max(200, n // 4), seed + 2)
     sc = st.fixed_dictionaries({"lib": libs, "seq": st.sampled_from(_scope_specs()), "inplace": st.booleans()})
     harness.run_hyp(acc, "scope", o_scope, sc, n, seed)
 
@@ -319,6 +330,8 @@ def w_scope_grid(acc):
         {"t": "entry", "type": "book", "key": "b2", "fields": [["title", "bad " + libgen.MARKER + " é", 13], ["note", "fine é", 14]], "line": 12, "raw": "@book{b2}"},
         {"t": "entry", "type": "book", "key": "b3", "fields": [["author", np2, 16]], "line": 15, "raw": "@book{b3}"},
         {"t": "string", "key": "t", "value": "bad " + libgen.MARKER, "line": 17, "raw": "@string{t}"},
+        # many strings in one entry: the one that cannot be converted is the 13th (fields and name parts count in field order)
+        {"t": "entry", "type": "misc", "key": "b4", "fields": [["f%d" % i, "fine é %d" % i, 31 + i] for i in range(6)] + [["author", [np_, np_], 37]] + [["g%d" % i, "é", 38 + i] for i in range(3)] + [["last", "bad " + libgen.MARKER, 41], ["after", "é", 42]], "line": 30, "raw": "@misc{b4}"},
         {"t": "dupfield", "entry": {"type": "misc", "key": "d", "fields": [["a", "é", 19], ["a", "\\'e", 19]], "line": 18, "raw": "@misc{d}"}, "keys": ["a"]},
         {"t": "mwerror", "entry": {"type": "misc", "key": "m", "fields": [["a", "é", 21]], "line": 20, "raw": "@misc{m}"}, "err": "invalidname"},
     ]
